@@ -834,6 +834,10 @@ class Model:
             variables = []
             values = []
 
+            # The expressions of the variables eliminated so far, by name.
+            eliminated = {}
+            input_names = {s.symbol.name() for s in self.inputs}
+
             def get_derivative(expr):
                 if expr.is_constant():
                     return 0.0
@@ -846,7 +850,20 @@ class Model:
                         der_sym = ca.MX.sym("der({})".format(expr.name()))
                         der_states[expr.name()] = Variable(der_sym, float)
                         return der_sym
+                    elif expr.name() in eliminated:
+                        # Eliminated earlier on: differentiate what it stands for.
+                        return get_derivative(eliminated[expr.name()])
+                    elif expr.name() == self.time.name():
+                        return 1.0
+                    elif expr.name() in input_names:
+                        raise Exception(
+                            "Cannot eliminate a differentiated variable whose expression depends "
+                            "on input '{}', as the derivative of an input is not available".format(
+                                expr.name()
+                            )
+                        )
                     else:
+                        # Parameters and constants
                         return 0.0
                 else:
                     # Differentiate using CasADi and chain rule
@@ -878,6 +895,7 @@ class Model:
 
                     variables.append(variable)
                     values.append(value)
+                    eliminated[variable.name()] = value
 
                     # Skip this equation
                     continue
